@@ -78,12 +78,15 @@ def run(ctx):
     for cls in ('Scrambler', 'Descrambler'):
         s = ctx.ir(cls, 'usb3.physical.scrambling')
         a = s.drivers('lfsr.advance', exact=True)
-        ok = len(a) == 1 and a[0].rhs.canon() == 'self.sink.valid & self.source.ready & ~self.hold' and not a[0].guard
+        ok = len(a) == 1 and q.conj(a[0].rhs) == {('self.sink.valid', True), ('self.source.ready', True), ('self.hold', False)} and \
+            not a[0].guard
         ctx.ob('C31.advance', cls + '.lfsr.advance', ok, a[0].loc if a else None,
                'keystream advances only when a word is transferred and not held: %s' % [q.fmt(x) for x in a])
         c = s.drivers('lfsr.clear', exact=True)
-        want = '((1 == self.sink.ctrl[0:1]) & (%d == self.sink.payload[0:8]) & self.sink.valid) | self.clear' % COM
-        ctx.ob('C31.clear', cls + '.lfsr.clear', len(c) == 1 and c[0].rhs.canon() == want and not c[0].guard, c[0].loc if c else None,
+        want = sorted([sorted({('self.sink.ctrl[0:1]', True), ('%d == self.sink.payload[0:8]' % COM, True), ('self.sink.valid', True)}),
+                       [('self.clear', True)]])
+        got = sorted(sorted(d) for d in q.dnf(c[0].rhs)) if len(c) == 1 else None
+        ctx.ob('C31.clear', cls + '.lfsr.clear', len(c) == 1 and got == want and not c[0].guard, c[0].loc if c else None,
                'keystream restarts on clear or on a COM (K28.5) in symbol 0 of a valid word: %s' % [x.rhs.canon() for x in c])
         for i in range(4):
             lo, hi = 8 * i, 8 * i + 8
